@@ -336,9 +336,90 @@ func maxPagesOf(kind int, pages uint32, declMax bool) uint32 {
 	return 65536
 }
 
-func buildModule(kind int, pages uint32, declMax bool, specs []*fnSpec) []byte {
+// ---------------------------------------------------------------- link dimension (declared vs defined memory type)
+
+// A link = what the importing module DECLARES for its memory import vs what the exporting module DEFINES (and how far
+// the exporter's memory has grown before the importer is instantiated). The code of the importer is compiled from the
+// declaration alone (shared => "never moves", limits), the memory it runs on is the definition: every assumption
+// the compiler derives from the declaration must be enforced by the import matching or not be relied upon. The link
+// alphabet contains the spec-compatible widenings (which must execute correctly) AND every single-attribute
+// incompatibility (which wazero may reject - nothing executes - but if it links them, the property must still hold).
+type linkDef struct {
+	Name    string
+	DefKind int    // mkImported (definition unshared, moves on grow) | mkImportedShared (definition shared)
+	DefMax  bool   // unshared definition: with a declared maximum (pages+16)
+	PreGrow uint32 // the exporter's memory is grown by this many pages before the importer is instantiated
+	Decl    func(def wb.Limits, pages uint32) wb.Limits
+}
+
+func capMaxPages(l wb.Limits) wb.Limits {
+	if l.HasMax && l.Max > 65536 {
+		l.Max = 65536
+	}
+	if l.HasMax && l.Max < l.Min {
+		l.Max = l.Min
+	}
+	return l
+}
+
+var links = []*linkDef{
+	// spec-compatible declarations that differ from the definition
+	{Name: "decl-nomax|def-max", DefKind: mkImported, DefMax: true, Decl: func(d wb.Limits, p uint32) wb.Limits { return wb.Limits{Min: p} }},
+	{Name: "decl-min-smaller|def-max", DefKind: mkImported, DefMax: true, Decl: func(d wb.Limits, p uint32) wb.Limits { d.Min = 0; return d }},
+	{Name: "decl-max-larger|def-max", DefKind: mkImported, DefMax: true, Decl: func(d wb.Limits, p uint32) wb.Limits { d.Max += 16; return d }},
+	{Name: "decl-min=current|def-grown", DefKind: mkImported, DefMax: true, PreGrow: 1, Decl: func(d wb.Limits, p uint32) wb.Limits { d.Min = p; return d }},
+	{Name: "decl-shared-wider|def-shared", DefKind: mkImportedShared, Decl: func(d wb.Limits, p uint32) wb.Limits { d.Min = 0; d.Max += 16; return d }},
+	{Name: "decl-shared-min=current|def-shared-grown", DefKind: mkImportedShared, PreGrow: 1, Decl: func(d wb.Limits, p uint32) wb.Limits { d.Min = p; return d }},
+	// incompatible in exactly one attribute: sharedness
+	{Name: "decl-shared|def-unshared-max", DefKind: mkImported, DefMax: true, Decl: func(d wb.Limits, p uint32) wb.Limits { d.Shared = true; return d }},
+	{Name: "decl-shared|def-unshared-nomax", DefKind: mkImported, Decl: func(d wb.Limits, p uint32) wb.Limits {
+		return wb.Limits{Min: p, HasMax: true, Max: p + 16, Shared: true}
+	}},
+	{Name: "decl-unshared-max|def-shared", DefKind: mkImportedShared, Decl: func(d wb.Limits, p uint32) wb.Limits { d.Shared = false; return d }},
+	{Name: "decl-unshared-nomax|def-shared", DefKind: mkImportedShared, Decl: func(d wb.Limits, p uint32) wb.Limits { return wb.Limits{Min: p} }},
+	// ... the maximum (a declaration with max == min says "this memory never grows")
+	{Name: "decl-max=min|def-max", DefKind: mkImported, DefMax: true, Decl: func(d wb.Limits, p uint32) wb.Limits { d.Max = p; return d }},
+	{Name: "decl-max-smaller|def-max", DefKind: mkImported, DefMax: true, Decl: func(d wb.Limits, p uint32) wb.Limits { d.Max = p + 1; return d }},
+	{Name: "decl-max|def-nomax", DefKind: mkImported, Decl: func(d wb.Limits, p uint32) wb.Limits { return wb.Limits{Min: p, HasMax: true, Max: p + 16} }},
+	{Name: "decl-max=min|def-nomax", DefKind: mkImported, Decl: func(d wb.Limits, p uint32) wb.Limits { return wb.Limits{Min: p, HasMax: true, Max: p} }},
+	{Name: "decl-shared-max=min|def-shared", DefKind: mkImportedShared, Decl: func(d wb.Limits, p uint32) wb.Limits { d.Max = p; return d }},
+	// ... the minimum (a declaration with a larger minimum says "the first min pages always exist")
+	{Name: "decl-min-larger|def-max", DefKind: mkImported, DefMax: true, Decl: func(d wb.Limits, p uint32) wb.Limits { d.Min = p + 1; return d }},
+	{Name: "decl-min-larger|def-nomax", DefKind: mkImported, Decl: func(d wb.Limits, p uint32) wb.Limits { return wb.Limits{Min: p + 2} }},
+	{Name: "decl-shared-min-larger|def-shared", DefKind: mkImportedShared, Decl: func(d wb.Limits, p uint32) wb.Limits { d.Min = p + 1; return d }},
+}
+
+func linkByName(n string) *linkDef {
+	for _, l := range links {
+		if l.Name == n {
+			return l
+		}
+	}
+	return nil
+}
+
+// defLimits: the limits of the memory definition (of the module itself, or of the exporting module). `pages` is the
+// size at the time the module under test is instantiated.
+func defLimits(kind int, pages uint32, declMax bool, link *linkDef) wb.Limits {
+	l := memLimits(kind, pages, declMax)
+	if link != nil && link.PreGrow > 0 {
+		l.Min = pages - link.PreGrow
+	}
+	return l
+}
+
+// declLimits: the limits the module under test declares for its memory (import).
+func declLimits(kind int, pages uint32, declMax bool, link *linkDef) wb.Limits {
+	def := defLimits(kind, pages, declMax, link)
+	if link == nil {
+		return def
+	}
+	return capMaxPages(link.Decl(def, pages))
+}
+
+func buildModule(kind int, pages uint32, declMax bool, link *linkDef, specs []*fnSpec) []byte {
 	m := &wb.Module{}
-	lim := memLimits(kind, pages, declMax)
+	lim := declLimits(kind, pages, declMax, link)
 	if kind == mkImported || kind == mkImportedShared {
 		m.Imports = append(m.Imports, wb.Import{Module: "mem", Name: "memory", Kind: wb.KindMemory, Mem: lim})
 	} else {
@@ -362,9 +443,9 @@ func buildModule(kind int, pages uint32, declMax bool, specs []*fnSpec) []byte {
 	return m.Encode()
 }
 
-func buildMemModule(kind int, pages uint32, declMax bool) []byte {
+func buildMemModule(kind int, pages uint32, declMax bool, link *linkDef) []byte {
 	m := &wb.Module{}
-	lim := memLimits(kind, pages, declMax)
+	lim := defLimits(kind, pages, declMax, link)
 	m.Mem = &lim
 	m.Exports = append(m.Exports, wb.Export{Name: "memory", Kind: wb.KindMemory, Idx: 0})
 	return m.Encode()
